@@ -101,6 +101,13 @@ func (e *Engine) RunRoot(fn *ssa.Function) (err error) {
 			s.addCover("cover", e.rootKey+"#cover:requires", fn.Pos(), "requires satisfiable")
 		}
 	}
+	if fr.contract != nil {
+		e.checkIfaceCallsOnly(s, fn, fr.contract)
+		e.checkDirectCallsOnly(s, fn, fr.contract)
+		if fr.contract.Flags["frame_only"] != "" && fr.contract.Flags["never_writes"] == "" {
+			return nil
+		}
+	}
 	// static frame clauses: never_writes [tag] T.f, T.g ... (checked on the transitive write set of the function)
 	if fr.contract != nil && fr.contract.Flags["never_writes"] != "" {
 		spec := fr.contract.Flags["never_writes"]
